@@ -165,6 +165,9 @@ class World:
             return self.ref(L), (lambda: self.get(L)), set(locname(L)), {L}
         if k == "lit":
             return t[1], (lambda: t[1]), set(), set()
+        if k == "litexpr":
+            # a constant wrapped as an expression node of its own
+            return self.xd.refs.LiteralExpr(t[1]), (lambda: t[1]), set(), set()
         if k == "bin":
             cls, f = t[1], BINOPS[t[1]]
             e1, d1, n1, l1 = self.build(t[2])
@@ -410,6 +413,18 @@ def slot_trees(P, Q, level):
         out.append((f"bin*:second-operand-{wname}", ("bin", "*", q, wrap(p))))
         out.append((f"call:arg-{wname}", ("call", "attr", [wrap(p), q], [])))
         out.append((f"builtin-param-{wname}", ("builtin", "round2", q, wrap(p))))
+    # constants wrapped as LiteralExpr nodes, as either operand, below every kind of parent
+    for lname, inner in (("litexpr-lhs", ("bin", "*", ("litexpr", 2), p)), ("litexpr-rhs", ("bin", "+", p, ("litexpr", 2))),
+                         ("litexpr-neg", ("bin", "-", ("un", "-", ("litexpr", 2)), p))):
+        out.append((f"{lname}:top", inner))
+        out.append((f"{lname}:bin-rhs", ("bin", "+", ("lit", 1), inner)))
+        out.append((f"{lname}:bin-lhs", ("bin", "+", inner, ("lit", 1))))
+        out.append((f"{lname}:un", ("un", "-", inner)))
+        out.append((f"{lname}:builtin-arg", ("builtin", "abs", inner)))
+        out.append((f"{lname}:builtin-param", ("builtin", "round2", ("lit", 5), inner)))
+        out.append((f"{lname}:call-arg", ("call", "attr", [inner], [])))
+        out.append((f"{lname}:call-kwarg", ("call", "attr", [("lit", 1)], [("kw", inner)])))
+        out.append((f"{lname}:computed-key", ("item_computed", ("bin", "%", ("builtin", "abs", inner), ("lit", 2)))))
     out.append(("item:over-builtin", ("index0", ("builtin", "divmod", p, q))))
     out.append(("item:over-builtin-param", ("index0", ("builtin", "divmod", q, p))))
     return out
